@@ -316,8 +316,18 @@ def gen_tt3_ndef(tree, out):
     if ast.unparse(bl.value) != 'range(i, last_block)':
         raise Unsupported('_read_ndef_data: block list is ' + ast.unparse(bl.value))
     rd = nodes(lp, ast.AugAssign, lambda n: ast.unparse(n.target) == 'data')
-    if len(rd) != 1 or ast.unparse(rd[0].value) != 'self.tag.read_from_ndef_service(*block_list)' or not isinstance(rd[0].op, ast.Add):
+    if len(rd) != 1 or not isinstance(rd[0].op, ast.Add):
         raise Unsupported('_read_ndef_data: the batch is not appended to data')
+    if ast.unparse(rd[0].value) != 'self.tag.read_from_ndef_service(*block_list)':
+        # since fix 72d9c42: block_data = self.tag.read_from_ndef_service(*block_list); a None result (MAC verification
+        # failed on an authenticated FeliCa Lite) returns None; otherwise data += block_data
+        bd = assigns(lp, 'block_data')
+        nn = nodes(lp, ast.If, lambda n: ast.unparse(n.test) == 'block_data is None')
+        if ast.unparse(rd[0].value) != 'block_data' or len(bd) != 1 \
+                or ast.unparse(bd[0].value) != 'self.tag.read_from_ndef_service(*block_list)' \
+                or len(nn) != 1 or nn[0].orelse or not returns_none(nn[0].body) \
+                or not (bd[0].lineno < nn[0].lineno < rd[0].lineno):
+            raise Unsupported('_read_ndef_data: the batch is not appended to data')
     trims = [a for a in assigns(f, 'data') if isinstance(a.value, ast.Subscript)]
     out.append(ret('gen_t3_rd_trim', [('data', B), ('ln', I)], one('_read_ndef_data: data = data[0:ln]', trims).value, ATTR_T))
 
